@@ -30,7 +30,7 @@ RULE = (
     "channels 1..4, D in 1..3, non-square, 0-3 leading axes; unique ids. Save/load cases: model class x equivariant flag. "
     "Non-trivial: chain length >=2, or k>=2 with >=2 leading axes, or a save/load case; distinct by (signature, layout, chain)."
 )
-RULE += " Also: per-operation storage-order contract for re-layouts that do not pass through pytree flattening; payloads float32 / int32 / float64 under x64; reused jitted identity; save/load templates differing in non-array leaves; checkpoints of ml.train(save_model=...)."
+RULE += " Also: per-operation storage-order contract for re-layouts that do not pass through pytree flattening; payloads float32 / int32 / float64 under x64 / mixed per block (int32 next to non-integer float32); reused jitted identity; save/load templates differing in non-array leaves; checkpoints of ml.train(save_model=...)."
 ASSUMPTIONS = ["ids < 2^24 are exact in float32", "reference scalar layout vmon/ref/misc.py"]
 ANCHORS = [
     "ginjax.geometric.multi_image:MultiImage.to_vector", "ginjax.geometric.multi_image:MultiImage.from_vector",
@@ -180,7 +180,7 @@ def run_checkpoint(case, ctx):
     return result(key, viols, True, evals=2, obs={"training_checkpoints": 1}, hist={"saveload_model": f"{name}/checkpoint", "saveload_variant": "train-checkpoint"}, sample={"key": key})
 
 
-REPS = ("float32", "float32", "float32", "int32", "float64-x64")
+REPS = ("float32", "float32", "float32", "int32", "float64-x64", "mixed")
 # operations that do not pass through jax's pytree flattening: they hand back the blocks in the storage order they received
 # (jit / vmap / tree_flatten sort the blocks and are held to "by type" only, as the statement says)
 ORDER_OPS = ("vector", "copy", "to_scalar", "expand_combine", "expand_merge", "pmap", "images")
@@ -218,6 +218,13 @@ def _run_chain(case, ctx, rep):
         shp = (lead + (c,) if n_lead >= 1 else ()) + sp + (D,) * k
         n = int(np.prod(shp))
         base = (2.0**31 + 0.5) if rep == "float64-x64" else 0
+        if rep == "mixed":
+            # blocks of different dtypes in one multi-image: the first block an int32 mask, the others float32 fields with
+            # non-integer values (ids + 0.5 stay exact in float32); every value must come back, whatever the container promotes to
+            blocks[(k, p)] = jnp.asarray((nid + np.arange(n) + (0.0 if not blocks else 0.5)).reshape(shp).astype(np.int32 if not blocks else np.float32))
+            nid += n
+            sig.append(((k, p), c))
+            continue
         blocks[(k, p)] = jnp.asarray((base + nid + np.arange(n)).reshape(shp).astype({"int32": np.int32, "float64-x64": np.float64}.get(rep, np.float32)))
         nid += n
         sig.append(((k, p), c))
